@@ -186,6 +186,14 @@ def list_reader_vc(S, prefix='list-reader'):
             text = reads[0][4]
             j, val = ParsePath.spec(text)
             want = z3.And(is_entry, j >= 0)
+            if ctx.ghost.get('list_mode') == 1:
+                # --size prints the size of the payload: an entry whose
+                # payload cannot be stat'ed (and is not a dangling link) is
+                # malformed for this mode ("info without payload")
+                fs = fs_of(I_)
+                pay, _st, _td = purge.payload_spec(ctx, full)
+                want = z3.And(want, z3.Or(fs.kind(pay) != ABSENT,
+                                          fs.lkind(pay) == fsmodel.SYMLINK))
         else:
             want = z3.BoolVal(False)
         ctx.oblige(prefix + '/one-line-iff-well-formed',
@@ -199,8 +207,18 @@ def list_reader_vc(S, prefix='list-reader'):
             has, us, _j, _c = dates.spec_deletion_date(ctx, text)
             datestr = z3.If(has, spec.datestr_f(us), SV(UNKNOWN_DATE))
             loc = spec.join(vol, val, ctx=ctx)
-            ctx.oblige(prefix + '/line-is-date-space-absolute-path',
-                       T(outs[0]) == z3.Concat(datestr, SV(' '), loc))
+            mode = ctx.ghost['list_mode']
+            if mode == 0:
+                ctx.oblige(prefix + '/line-is-date-space-absolute-path',
+                           T(outs[0]) == z3.Concat(datestr, SV(' '), loc))
+            elif mode == 1:
+                ctx.oblige(prefix + '/size-line-ends-with-space-absolute-path',
+                           z3.SuffixOf(z3.Concat(SV(' '), loc), T(outs[0])))
+            else:
+                want_p, _stem, _td = purge.payload_spec(ctx, full)
+                ctx.oblige(prefix + '/files-line-is-date-path-arrow-payload',
+                           T(outs[0]) == z3.Concat(datestr, SV(' '), loc,
+                                                   SV(' -> '), want_p))
 
     # the selector/scanner is abstracted: an arbitrary sequence of events
     def list_loop_annot():
@@ -247,9 +265,13 @@ def list_reader_vc(S, prefix='list-reader'):
                                action.attrs['selector'],
                                action.attrs['dir_reader'],
                                action.attrs['content_reader']], {})
+        # the three line formats: default, --size, --files
+        mode = ctx.choose(3, 'list-mode')
+        ctx.ghost['list_mode'] = mode
         args = V.I.call(args_cls, [], {'trash_dirs': [],
-                                       'attribute_to_print': 'deletion_date',
-                                       'show_files': False,
+                                       'attribute_to_print':
+                                           'size' if mode == 1 else 'deletion_date',
+                                       'show_files': mode == 2,
                                        'all_users': False})
         ctx.ghost['yielded'] = []
         ctx.ghost['yield_mark'] = 0
@@ -261,6 +283,10 @@ def list_reader_vc(S, prefix='list-reader'):
                   ('trashcli.list.list_trash_action', 'format_line'),
                   ('trashcli.list.extractors',
                    'DeletionDateExtractor.extract_attribute'),
+                  ('trashcli.list.extractors',
+                   'SizeExtractor.extract_attribute'),
+                  ('trashcli.list.list_trash_action', 'format_line2'),
+                  ('trashcli.fs', 'file_size'),
                   ('trashcli.lib.trash_dir_reader',
                    'TrashDirReader.list_trashinfo')):
             S.resolve(*q)
